@@ -733,12 +733,14 @@ func genCall(rt *rapid.T, d *primDoc) (src string, class string, mustRej string)
 var soupTokens = []string{"(", ")", ",", "!", "&&", "||", "&", "|", "\"", "`", "\"a\"", "`b`", "true", "false", "0", "1", "1.5", "x", "$x", "default_t", "default_t()",
 	"req_host_in", "req_host_in(\"a\")", "req_path_in(\"/\", true)", "//", "/", "\\", "\n", " ", "\x00", "\xff", "\ufeff", ";", "'", "func", "if", "-", "_", "9e", "0x", "req_cip_range(\"1.1.1.1\",", "bfe_periodic_time_range(\"1 Z\",\"2 Z\",\"\")"}
 
-func genC17(rt *rapid.T) *c17case {
-	switch rapid.IntRange(0, 9).Draw(rt, "kind") {
-	case 0:
-		b := rapid.SliceOfN(rapid.Byte(), 0, 48).Draw(rt, "bytes")
-		return &c17case{Input: string(b), Class: "random-bytes"}
-	case 1, 2:
+// genC17Batch: per rapid iteration one input of each unstructured kind and one
+// grammar-aware call for every primitive (a drawn primitive index would be
+// biased towards the ends of the catalogue).
+func genC17Batch(rt *rapid.T) []*c17case {
+	var out []*c17case
+	b := rapid.SliceOfN(rapid.Byte(), 0, 48).Draw(rt, "bytes")
+	out = append(out, &c17case{Input: string(b), Class: "random-bytes"})
+	for k := 0; k < 3; k++ {
 		n := rapid.IntRange(0, 12).Draw(rt, "ntok")
 		var sb strings.Builder
 		for i := 0; i < n; i++ {
@@ -747,24 +749,25 @@ func genC17(rt *rapid.T) *c17case {
 				sb.WriteByte(' ')
 			}
 		}
-		return &c17case{Input: sb.String(), Class: "token-soup"}
-	case 3:
-		// unresolved variables / bare identifiers inside otherwise valid expressions
-		v := pick(rt, []string{"a", "$a", "news_host", "$news_host", "default_t", "req_host_in", "true", "TRUE"}, "var")
-		e := pick(rt, []string{"%s", "%s && default_t()", "default_t() || %s", "!%s", "(%s)", "default_t() && (%s || default_t())"}, "ctx")
-		return &c17case{Input: fmt.Sprintf(e, v), Class: "variable", MustRej: "unresolved-variable"}
+		out = append(out, &c17case{Input: sb.String(), Class: "token-soup"})
 	}
-	d := &catalogue[rapid.IntRange(0, len(catalogue)-1).Draw(rt, "primitive")]
-	src, class, must := genCall(rt, d)
-	switch rapid.IntRange(0, 5).Draw(rt, "wrap") {
-	case 0:
-		src = "!(" + src + ") && default_t()"
-	case 1:
-		src = "default_t() || " + src
-	case 2:
-		src = "( " + src + " )"
+	// unresolved variables / bare identifiers inside otherwise valid expressions
+	v := pick(rt, []string{"a", "$a", "news_host", "$news_host", "default_t", "req_host_in", "true", "TRUE"}, "var")
+	e := pick(rt, []string{"%s", "%s && default_t()", "default_t() || %s", "!%s", "(%s)", "default_t() && (%s || default_t())"}, "ctx")
+	out = append(out, &c17case{Input: fmt.Sprintf(e, v), Class: "variable", MustRej: "unresolved-variable"})
+	for i := range catalogue {
+		src, class, must := genCall(rt, &catalogue[i])
+		switch rapid.IntRange(0, 5).Draw(rt, "wrap") {
+		case 0:
+			src = "!(" + src + ") && default_t()"
+		case 1:
+			src = "default_t() || " + src
+		case 2:
+			src = "( " + src + " )"
+		}
+		out = append(out, &c17case{Input: src, Class: class, MustRej: must})
 	}
-	return &c17case{Input: src, Class: class, MustRej: must}
+	return out
 }
 
 // c17Hostile: fixed inputs around the places where argument parsers and the
@@ -849,15 +852,16 @@ func TestC17(t *testing.T) {
 		c17Check(t, rec, &c17case{Input: s, Class: "corpus"})
 	}
 	rapid.Check(t, func(rt *rapid.T) {
-		cs := genC17(rt)
-		in := cs.Input
-		if len(in) > 120 {
-			in = in[:120] + "..."
+		for _, cs := range genC17Batch(rt) {
+			in := cs.Input
+			if len(in) > 120 {
+				in = in[:120] + "..."
+			}
+			if utf8.ValidString(in) {
+				rec.Sample(map[string]any{"input": in, "class": cs.Class, "must_reject": cs.MustRej})
+			}
+			c17Check(rt, rec, cs)
 		}
-		if utf8.ValidString(in) {
-			rec.Sample(map[string]any{"input": in, "class": cs.Class, "must_reject": cs.MustRej})
-		}
-		c17Check(rt, rec, cs)
 	})
 }
 
